@@ -73,7 +73,7 @@ PROPS = {
              "primary frames of that cycle; the model is compared record for record as well. "
              "Non-trivial = a distribution that delivered at least one secondary list, or a pipeline case with secondary records; distinct by input line.",
         nontrivial=["dist", "pipeline-secondaries"],
-        lean_files=["C09", "C09Pipe", "PipeGroup"],
+        lean_files=["C09", "C09Pipe", "PipeGroup", "C09Oracle"],
         jobs=seeds(1, 6),
         trusted_base=["Go map semantics (a set of sources per receiver) modelled as a duplicate-free pair list; map iteration order is irrelevant "
                       "because outputs are sorted before comparison"],
